@@ -5,7 +5,9 @@ pub mod c08;
 pub mod c09;
 pub mod c13;
 pub mod c14;
+pub mod c15;
 pub mod c17;
+#[cfg(rustls_rcgen_verif)]
 pub mod c20;
 pub mod certfam;
 
@@ -19,7 +21,9 @@ pub fn run(prop: &str, tier: &str, replay: Option<&str>) -> i32 {
         "C09" => c09::run(prop, tier, replay),
         "C13" => c13::run(prop, tier, replay),
         "C14" => c14::run(prop, tier, replay),
+        "C15" => c15::run(prop, tier, replay),
         "C17" => c17::run(prop, tier, replay),
+        #[cfg(rustls_rcgen_verif)]
         "C20" => c20::run(prop, tier, replay),
         _ => {
             eprintln!("unknown property {}", prop);
